@@ -1,4 +1,5 @@
 mod common;
+mod p_batched;
 mod p_edit;
 mod p_multigen;
 mod p_pipe;
@@ -19,6 +20,7 @@ fn component(name: &str) -> (ExecFn, GenFn) {
     match name {
         "edit" => (p_edit::exec, p_edit::gen),
         "pipe" => (p_pipe::exec, p_pipe::gen),
+        "batched" => (p_batched::exec, p_batched::gen),
         "multigen" => (p_multigen::exec, p_multigen::gen),
         "buffered" => (p_pipe::exec_buffered, p_pipe::gen_buffered),
         _ => {
